@@ -8,7 +8,7 @@
     function of exactly these components) every later answer to anyone and every
     later stored state is then identical too. *)
 From MW Require Import Base Store Monad Usage Server Websocket Service Findings Inv Obs
-     ProtoFacts NpFactsA MbFactsA MbFactsB DupFacts Inst_Params DupFactsLater.
+     ProtoFacts NpFactsA MbFactsA MbFactsB DupFacts Inst_Params DupFactsLater DupFactsFresh.
 Local Open Scope list_scope.
 
 (** a claim answered `claimed` leaves behind what its duplicate needs ... *)
@@ -106,6 +106,22 @@ Theorem C14_restamp_frame : ltac:(let t := type of upd_touch_frame in exact t).
 Proof. exact upd_touch_frame. Qed.
 Check C14_restamp_frame.
 Print Assumptions C14_restamp_frame.
+
+
+(** ** a close answered `closed` on a connection that had NOT opened the mailbox (DupFactsFresh.v): it establishes
+    [close_done] too, so its duplicate is covered by [close_dup] like any other *)
+Theorem C14_close_fresh_establishes : ltac:(let t := type of close_fresh_establishes in exact t).
+Proof. exact close_fresh_establishes. Qed.
+Check C14_close_fresh_establishes.
+Print Assumptions C14_close_fresh_establishes.
+
+Theorem C14_close_fresh_dup : ltac:(let t := type of close_fresh_dup in exact t).
+Proof. exact close_fresh_dup. Qed.
+Check C14_close_fresh_dup.
+Print Assumptions C14_close_fresh_dup.
+
+Example C14_close_fresh_dup_nonvacuous : ltac:(let t := type of close_fresh_dup_nonvacuous in exact t).
+Proof. exact close_fresh_dup_nonvacuous. Qed.
 
 
 Example C14_close_restamps_refuted :
